@@ -103,8 +103,8 @@ type Violation struct {
 	Prop   string `json:"prop"`
 	Rule   string `json:"rule"`
 	Msg    string `json:"msg,omitempty"`
+	Sig    string `json:"sig,omitempty"` // discriminating features of the failing input (matched against known findings)
 	Detail string `json:"detail"`
-	Known  string `json:"known,omitempty"` // id of the known finding it matches
 }
 
 type Result struct {
@@ -154,6 +154,7 @@ var (
 	fDebug   = flag.Bool("sim.debug", false, "verify goroutine identity at every trap")
 	fDump    = flag.Bool("sim.dumpplan", false, "always write the realised plan")
 	fRecheck = flag.Int("sim.recheck", 0, "re-execute every Nth run from its realised plan and compare hashes")
+	fDumpMsg = flag.String("sim.dumpmsg", "", "print input and emissions of this message id")
 	fBudget  = flag.Duration("sim.budget", 0, "stop starting new runs after this wall time")
 )
 
